@@ -167,8 +167,6 @@ func (h *killedHandler) handleRestart() {
 	} else {
 		h.ctx.restarting = nil
 		atomic.StoreInt32(&h.ctx.state, running)
-		// 重启后的新一轮生命周期从自身的 OnLaunch 开始（此前误发给了父 Actor）
-		h.ctx.tell(true, h.ctx.ref, new(vivid.OnLaunch))
 		h.ctx.mailbox.Resume()
 
 		// 通知事件流
@@ -181,5 +179,9 @@ func (h *killedHandler) handleRestart() {
 			ActorRef: h.ctx.ref,
 			Type:     reflect.TypeOf(h.ctx.actor),
 		})
+
+		// 新一轮生命周期必须以 OnLaunch 开始：若经由邮箱投递，重启期间已入队的系统消息（例如并发的 OnKill）
+		// 会排在它前面，新实例会先看到 OnKill/OnKilled 而看不到 OnLaunch；因此在此处直接处理
+		h.ctx.HandleEnvelop(mailbox.NewEnvelop(true, h.ctx.parent, h.ctx.ref, new(vivid.OnLaunch)))
 	}
 }
